@@ -37,9 +37,15 @@ type encChunk struct {
 type achunk [5][]du.Sample
 
 type input struct {
-	// Chunks[0] is the base chunk (smallest MinTime), the others overlap the group.
-	// Every chunk is the only chunk of its own series.
+	// Chunks are all chunks of the series to merge, in the order dedupChunksIterator's
+	// heap pops them: MinTime strictly increasing, except that a chunk may be an exact
+	// copy of the previous one. Series[i] (default i) is the input series holding chunk i.
 	Chunks []encChunk `json:"chunks"`
+	Series []int      `json:"series,omitempty"`
+}
+
+func sameChunk(a, b encChunk) bool {
+	return fmt.Sprint(a.Ts) == fmt.Sprint(b.Ts) && fmt.Sprint(a.Vals) == fmt.Sprint(b.Vals)
 }
 
 func (e encChunk) decode() (achunk, [5]bool, error) {
@@ -229,8 +235,8 @@ func run(raw json.RawMessage) (common.Case, error) {
 		return common.Case{}, err
 	}
 	var c common.Case
-	if len(in.Chunks) < 2 || len(in.Chunks) > 5 {
-		return c, fmt.Errorf("need 2..5 chunks")
+	if len(in.Chunks) < 1 || len(in.Chunks) > 12 {
+		return c, fmt.Errorf("need 1..12 chunks")
 	}
 	present := make([][5]bool, len(in.Chunks))
 	dec := make([]achunk, len(in.Chunks))
@@ -245,7 +251,6 @@ func run(raw json.RawMessage) (common.Case, error) {
 		}
 	}
 	lset := labels.FromStrings("__name__", "m")
-	var series []storage.ChunkSeries
 	var metas []chunks.Meta
 	for i, ch := range dec {
 		for a := 0; a < 5; a++ {
@@ -260,23 +265,41 @@ func run(raw json.RawMessage) (common.Case, error) {
 			return c, err
 		}
 		metas = append(metas, m)
-		mm := m
-		series = append(series, &storage.ChunkSeriesEntry{Lset: lset, ChunkIteratorFn: func(chunks.Iterator) chunks.Iterator {
-			return storage.NewListChunkSeriesIterator(mm)
-		}})
 	}
-	// the model covers one overlap group with Chunks[0] popped first
-	gmax := metas[0].MaxTime
 	for i := 1; i < len(metas); i++ {
-		if metas[i].MinTime <= metas[i-1].MinTime {
-			return c, fmt.Errorf("chunks must have strictly increasing MinTime")
+		if metas[i].MinTime <= metas[i-1].MinTime && !sameChunk(in.Chunks[i], in.Chunks[i-1]) {
+			return c, fmt.Errorf("chunks must have strictly increasing MinTime (or repeat the previous chunk exactly)")
 		}
-		if metas[i].MinTime > gmax {
-			return c, fmt.Errorf("chunk %d does not overlap the group", i)
+	}
+	nser := 0
+	ser := make([]int, len(metas))
+	for i := range metas {
+		ser[i] = i
+		if i < len(in.Series) {
+			ser[i] = in.Series[i]
 		}
-		if metas[i].MaxTime > gmax {
-			gmax = metas[i].MaxTime
+		if ser[i] < 0 || ser[i] > 11 {
+			return c, fmt.Errorf("bad series index")
 		}
+		if ser[i]+1 > nser {
+			nser = ser[i] + 1
+		}
+	}
+	var series []storage.ChunkSeries
+	for sidx := 0; sidx < nser; sidx++ {
+		var ms []chunks.Meta
+		for i, m := range metas {
+			if ser[i] == sidx {
+				ms = append(ms, m)
+			}
+		}
+		if len(ms) == 0 {
+			continue
+		}
+		mm := ms
+		series = append(series, &storage.ChunkSeriesEntry{Lset: lset, ChunkIteratorFn: func(chunks.Iterator) chunks.Iterator {
+			return storage.NewListChunkSeriesIterator(mm...)
+		}})
 	}
 	merged := dedup.NewChunkSeriesMerger()(series...)
 	it := merged.Iterator(nil)
@@ -379,10 +402,11 @@ func run(raw json.RawMessage) (common.Case, error) {
 	c.Coq = common.App("Case", common.Z(base), common.List(encs), common.List(outs))
 	c.Obs = out
 	c.Nontrivial = len(out) >= 2
-	c.Class = fmt.Sprintf("k%d-out%d", len(in.Chunks), len(out))
-	if len(out) > 3 {
-		c.Class = fmt.Sprintf("k%d-out4+", len(in.Chunks))
+	ko := len(out)
+	if ko > 4 {
+		ko = 4
 	}
+	c.Class = fmt.Sprintf("k%d-s%d-out%d", len(in.Chunks), len(series), ko)
 
 	// Go-side predicate for well-formed inputs (all five aggregates present, increasing timestamps)
 	wf := true
@@ -453,80 +477,105 @@ func mkChunk(r *rand.Rand, tsx []int64) encChunk {
 func gen(r *rand.Rand, tier string, n int) []any {
 	var out []any
 	for len(out) < n {
-		k := 2
-		if r.Intn(4) == 0 {
-			k = 3 + r.Intn(2)
-		}
 		res := common.Pick(r, int64(300000), 300000, 3600000, 1000)
 		base := common.Pick(r, int64(1600000000000), 300000, 7, 1)
-		var in input
-		prevMin := int64(0)
-		gmax := int64(0)
-		okc := true
-		var prevTs []int64
+		ngroups := 1
+		switch g := r.Intn(10); {
+		case g >= 9:
+			ngroups = 3
+		case g >= 6:
+			ngroups = 2
+		}
 		// sizes: Coq reads the observed data slowly, so most cases are just big enough
 		// to produce 2-3 output chunks (the count aggregate is cut every 120 samples)
 		shape := r.Intn(20)
-		for i := 0; i < k; i++ {
-			var ln int
-			switch {
-			case shape < 4: // small: a single output chunk
-				ln = 1 + r.Intn(40)
-			case shape < 17: // two or three output chunks
-				ln = 55 + r.Intn(90)
-				if i >= 2 {
-					ln = 1 + r.Intn(30)
-				}
-			default: // long chunks, up to 400 samples
-				ln = 150 + r.Intn(251)
-				if i >= 1 {
-					ln = 1 + r.Intn(150)
-				}
+		var in input
+		next := base + r.Int63n(res) // earliest start of the next group
+		okc := true
+		for g := 0; g < ngroups && okc; g++ {
+			k := 2
+			switch x := r.Intn(8); {
+			case x == 0:
+				k = 1 // a chunk that overlaps nothing: passed through
+			case x >= 6:
+				k = 3 + r.Intn(2)
 			}
-			if tier == "thorough" && r.Intn(2) == 0 {
-				ln = 1 + r.Intn(400)
-			}
-			var start int64
-			if i == 0 {
-				start = base + r.Int63n(res)
-			} else {
-				// overlap the group: start inside (prevMin, gmax]
-				span := gmax - prevMin
-				if span <= 0 {
-					okc = false
-					break
-				}
-				start = prevMin + 1 + r.Int63n(span)
-				switch r.Intn(3) {
-				case 0: // typical replica: same resolution, small phase shift
-					start = prevMin + 1 + r.Int63n(res)
-					if start > gmax {
-						start = gmax
+			prevMin := int64(0)
+			gmax := int64(0)
+			var prevTs []int64
+			for i := 0; i < k; i++ {
+				var ln int
+				switch {
+				case shape < 4 || g > 0: // small: a single output chunk
+					ln = 1 + r.Intn(40)
+				case shape < 17: // two or three output chunks
+					ln = 55 + r.Intn(90)
+					if i >= 2 {
+						ln = 1 + r.Intn(30)
 					}
-				case 1: // same grid: timestamps coincide with the previous chunk's (ties between replicas)
-					if len(prevTs) > 1 {
-						start = prevTs[1+r.Intn(len(prevTs)-1)]
+				default: // long chunks, up to 400 samples
+					ln = 150 + r.Intn(251)
+					if i >= 1 {
+						ln = 1 + r.Intn(150)
 					}
 				}
-			}
-			var tsx []int64
-			t := start
-			for j := 0; j < ln; j++ {
-				tsx = append(tsx, t)
-				t += res
-				if r.Intn(15) == 0 {
-					t += res * int64(1+r.Intn(5)) // gap
+				if tier == "thorough" && r.Intn(2) == 0 {
+					ln = 1 + r.Intn(400)
+				}
+				var start int64
+				if i == 0 {
+					start = next
+				} else {
+					// overlap the group: start inside (prevMin, gmax]
+					span := gmax - prevMin
+					if span <= 0 {
+						okc = false
+						break
+					}
+					start = prevMin + 1 + r.Int63n(span)
+					switch r.Intn(3) {
+					case 0: // typical replica: same resolution, small phase shift
+						start = prevMin + 1 + r.Int63n(res)
+						if start > gmax {
+							start = gmax
+						}
+					case 1: // same grid: timestamps coincide with the previous chunk's (ties between replicas)
+						if len(prevTs) > 1 {
+							start = prevTs[1+r.Intn(len(prevTs)-1)]
+						}
+					}
+				}
+				var tsx []int64
+				t := start
+				for j := 0; j < ln; j++ {
+					tsx = append(tsx, t)
+					t += res
+					if r.Intn(15) == 0 {
+						t += res * int64(1+r.Intn(5)) // gap
+					}
+				}
+				ch := mkChunk(r, tsx)
+				in.Chunks = append(in.Chunks, ch)
+				if r.Intn(12) == 0 { // the same chunk once more (e.g. the block was uploaded twice)
+					in.Chunks = append(in.Chunks, ch)
+				}
+				prevMin = start
+				prevTs = tsx
+				if tsx[len(tsx)-1] > gmax {
+					gmax = tsx[len(tsx)-1]
 				}
 			}
-			in.Chunks = append(in.Chunks, mkChunk(r, tsx))
-			prevMin = start
-			prevTs = tsx
-			if tsx[len(tsx)-1] > gmax {
-				gmax = tsx[len(tsx)-1]
-			}
+			next = gmax + 1 + r.Int63n(3*res)
 		}
-		if !okc {
+		if !okc || len(in.Chunks) > 12 {
 			continue
+		}
+		nser := 2 + r.Intn(2)
+		if r.Intn(5) == 0 {
+			nser = len(in.Chunks) // every chunk in its own series
+		}
+		for range in.Chunks {
+			in.Series = append(in.Series, r.Intn(nser))
 		}
 		switch r.Intn(20) {
 		case 0: // an aggregate absent in every chunk
@@ -536,7 +585,12 @@ func gen(r *rand.Rand, tier string, n int) []any {
 			}
 		case 1: // an aggregate absent in one chunk only
 			a := 1 + r.Intn(4)
-			in.Chunks[r.Intn(len(in.Chunks))].Vals[a] = nil
+			orig := in.Chunks[r.Intn(len(in.Chunks))]
+			for i := range in.Chunks {
+				if sameChunk(in.Chunks[i], orig) { // keep exact copies exact
+					in.Chunks[i].Vals[a] = nil
+				}
+			}
 		}
 		out = append(out, in)
 	}
